@@ -455,3 +455,21 @@ func c09MuxEncoded(r *core.Report) {
 		r.Check(bad == "", "muxencoded:FindRoute", p.Pos(fd.Pos()), "the decoded path is not consulted", "FindRoute reads "+bad+", the decoded path, although mux matches the escaped one: a request whose path parameter carries an escaped slash is judged by another path than the one that is matched")
 	})
 }
+
+// paramAt: the object of the i-th parameter of fd (names do not matter: a renamed parameter is the
+// same parameter).
+func paramAt(info *types.Info, fd *ast.FuncDecl, i int) types.Object {
+	k := 0
+	if fd.Type.Params == nil {
+		return nil
+	}
+	for _, f := range fd.Type.Params.List {
+		for _, nm := range f.Names {
+			if k == i {
+				return info.ObjectOf(nm)
+			}
+			k++
+		}
+	}
+	return nil
+}
